@@ -125,6 +125,17 @@ func exec1(op string, args []string) []string {
 		req.URL.Path = "/api/servers/" + string(core.MustUnHex(args[1]))
 		req.URL.RawPath = ""
 		return execHTTP(args[0], req)
+	case "viewraw":
+		// <state> <address> <wire>: the same request as `view`, as it arrives on the wire: <wire> is a spelling of the
+		// address with percent-escapes (an HTTP client may escape any byte); net/http parses it as it does for a real request
+		if len(args) != 3 {
+			return []string{"bad-op"}
+		}
+		var req *http.Request
+		if txt, ok := core.Guard(func() { req = httptest.NewRequest(http.MethodGet, "/api/servers/"+string(core.MustUnHex(args[2])), nil) }); !ok {
+			return []string{"bad-wire:" + txt}
+		}
+		return execHTTP(args[0], req)
 	case "list":
 		if len(args) != 7 {
 			return []string{"bad-op"}
@@ -567,6 +578,33 @@ func gen(rng *rand.Rand, tier core.Tier, emit core.Emit) {
 			}
 			emit("addr", hx(ip+":"+ps))
 		}
+	}
+	// the same view requests as a client may spell them on the wire: some bytes of the address percent-escaped
+	for i := 0; i < 120*scale; i++ {
+		ip, port := randIP(rng), randPort(rng)
+		if i%3 == 0 {
+			ip, port = "1.1.1.1", 10480
+		}
+		a := fmt.Sprintf("%s:%d", ip, port)
+		var wire strings.Builder
+		for j := 0; j < len(a); j++ {
+			c := a[j]
+			esc := rng.Intn(4) == 0 || (c == ':' && rng.Intn(2) == 0)
+			if i%5 == 0 {
+				esc = c == ':' // what encodeURIComponent does
+			}
+			switch {
+			case esc && rng.Intn(4) == 0:
+				fmt.Fprintf(&wire, "%%%02x", c)
+			case esc:
+				fmt.Fprintf(&wire, "%%%02X", c)
+			default:
+				wire.WriteByte(c)
+			}
+		}
+		w := wire.String()
+		st := state(rng, ip, port)
+		emit("viewraw", st, hx(a), hx(w))
 	}
 	// garbage view addresses (no '/': that is the router's business, see the driver)
 	for i := 0; i < 100*scale; i++ {
